@@ -18,6 +18,7 @@ import SimplicityModel.Value
 import SimplicityModel.Infer
 import SimplicityModel.Prog.RoundtripProps
 import SimplicityModel.Prog.JetsElementsProps
+import SimplicityModel.Prog.CommitEnc
 
 namespace Props.C01
 open Wire Prog
@@ -217,7 +218,91 @@ theorem compWitnessUnit_canonical :
     subst hj
     exact ⟨[], .unit, by simp, by rfl⟩
 
+/-- **Commitment-time round trip, assembled** (about the functions the driver runs: `Prog.encode` in
+commit mode — what `enc C` runs, the model of `CommitNode::to_vec_without_witness` — and
+`Prog.decodeCommit`, the model of `CommitNode::decode`).  Let `p` be a plan with arrows,
+commitment-time annotations `an` (identity roots computed without witness data) and commitment
+roots `cm` that is in the commitment-time decoder's canonical form (`Prog.CanonicalCommitPlan`,
+witnessed by a wire node list `N`): `N` is a non-empty list of fewer than 2^32 well-formed nodes that
+passes the canonical-order check and converts to `p`; no disconnect node has both children; `p` is
+well typed as a 1 → 1 program with exactly these arrows; `an` and `cm` are the annotations and
+commitment roots of `p`; the sharing check `is_shared_as::<MaxSharing>` passes; the root's identity
+root is not that of one of its sub-expressions.  Then
+
+* the encoder (commit mode, any witness assignment) writes exactly `N` (byte padded), and
+* `decodeCommit` accepts these bytes and returns the same plan and the same commitment roots at
+  every node (its annotations — identity roots — are recomputed from the same plan and the same
+  inferred arrows, so they are `an` again).
+
+Not covered: a disconnect node with both children (the commit-mode encoder writes `disc1 a` and the
+decoder returns a one-child disconnect: a different plan, see C02
+`commit_binary_disconnect_not_canonical`), and plans not in canonical form (`enc C` on generated
+plans out of post-order or with unshared duplicates: checked at run time against the implementation). -/
+theorem roundtrip_commit_canonical (tb : Tables) (hof : ∀ j, tb.ofName (tb.nameOf j) = some j)
+    (N : List (WNode tb.J)) (p : Plan) (arrows : Array (BM4.Ty × BM4.Ty)) (an : Array Annot)
+    (cm : Array Nat) (H : CanonicalCommitPlan tb N p arrows an cm) (wit : Nat → Option (List Bool)) :
+    encode tb.jc tb.ofName p an false wit =
+      some (padToByte (encProgram tb.jc N), padToByte ((wIdx p.toList 0).filterMap wit).flatten) ∧
+    decodeCommit tb (padToByte (encProgram tb.jc N)) = .ok (p, cm) :=
+  Prog.roundtrip_commit_canonical tb hof N p arrows an cm H wit
+
+/-- **Every program decoded at commitment time round-trips**: whatever `decodeCommit` returns is
+well typed and annotated, and — when no disconnect node has both children and the root's identity
+root is fresh, the two things `CommitNode::decode` does not check — it is in canonical form, so
+encoding it in commit mode and decoding again returns the same plan and commitment roots. -/
+theorem decodedCommit_is_canonical (tb : Tables) (prog : List Bool) (p : Plan) (cm : Array Nat)
+    (h : decodeCommit tb prog = .ok (p, cm)) :
+    ∃ N arrows an, infer tb.jetTy p true = .ok arrows ∧
+      annots tb.jetCmr tb.jetCost p arrows (fun _ => none) = some an ∧
+      (noBinDisc p = true → rootFresh p an = true → CanonicalCommitPlan tb N p arrows an cm) :=
+  Prog.decodedCommit_is_canonical tb prog p cm h
+
+/-- non-vacuity of `roundtrip_commit_canonical` on a program with several nodes, one of which
+(`witness`) is never shared at commitment time: every hypothesis of `CanonicalCommitPlan` holds for
+`comp witness unit` — here nothing about SHA-256 values is needed: only `unit` has an identity root
+at commitment time, so there is nothing it could collide with. -/
+theorem compWitnessUnit_commit_canonical :
+    ∃ an cm, CanonicalCommitPlan elementsTables [.witness, .unit, .comp 0 1] compWitnessUnit
+      #[(.one, .one), (.one, .one), (.one, .one)] an cm := by
+  obtain ⟨a0, a1, a2, ha, h0, h1, h2⟩ : ∃ a0 a1 a2, annots JetsE.jetCmr JetsE.jetCost compWitnessUnit
+      #[(.one, .one), (.one, .one), (.one, .one)] (fun _ => none) = some #[a0, a1, a2] ∧
+      a0.unique = true ∧ a1.unique = false ∧ a2.unique = true := by
+    simp [annots, annots.go, annotNode, compWitnessUnit]
+    exact ⟨_, _, _, ⟨rfl, rfl, rfl⟩, rfl, rfl, rfl⟩
+  obtain ⟨cm, hcm⟩ : ∃ cm, cmrs JetsE.jetCmr compWitnessUnit = some cm := by
+    simp [cmrs, cmrsGo, cmrsGoG, cmrNode, cmrNodeG, compWitnessUnit]
+  refine ⟨#[a0, a1, a2], cm, by simp, by decide, ⟨trivial, trivial, ⟨by decide, by decide⟩, trivial⟩,
+    by decide, by rfl, by simp [noBinDisc, compWitnessUnit], ?_, ha, ?_, ?_, hcm⟩
+  · have hc : constraints JetsE.jetTy compWitnessUnit true =
+        some [(.var 3, .one), (.var 1, .var 2), (.var 4, .var 0), (.var 5, .var 3), (.var 4, .one), (.var 5, .one)] := by rfl
+    have hu : ∀ n, Inf.unify (n + 7)
+        [(.var 3, .one), (.var 1, .var 2), (.var 4, .var 0), (.var 5, .var 3), (.var 4, .one), (.var 5, .one)] [] =
+        .ok [(0, .one), (5, .one), (4, .one), (1, .var 2), (3, .one)] := fun _ => rfl
+    show infer JetsE.jetTy compWitnessUnit true = .ok #[(.one, .one), (.one, .one), (.one, .one)]
+    unfold infer
+    rw [hc]
+    have : unifyFuel = (unifyFuel - 7) + 7 := by decide
+    rw [this]
+    simp only [hu]
+    congr 1
+    have : Array.range compWitnessUnit.size = #[0, 1, 2] := by decide
+    rw [this]
+    simp [Inf.closeUnit, Inf.lookup, Inf.Tm.eval, tyOfInf]
+  · simp [sharedOk, walk, compWitnessUnit, commitChildren, commitKey, h0, h1, h2, Node.children, seenLook]
+  · simp [rootFresh, compWitnessUnit, commitKey, h2]
+    intro x _
+    split <;> rfl
+
+example : ∃ an cm pb wb, encode JetsE.jc JetsE.ofName compWitnessUnit an false (fun _ => none) = some (pb, wb) ∧
+    decodeCommit elementsTables pb = .ok (compWitnessUnit, cm) := by
+  obtain ⟨an, cm, H⟩ := compWitnessUnit_commit_canonical
+  obtain ⟨h1, h2⟩ := roundtrip_commit_canonical elementsTables elements_ofName_nameOf _ _ _ _ _ H (fun _ => none)
+  exact ⟨an, cm, _, _, h1, h2⟩
+
 #print axioms roundtrip_canonical
+#print axioms roundtrip_commit_canonical
+#print axioms decodedCommit_is_canonical
+#print axioms compWitnessUnit_commit_canonical
 #print axioms compWitnessUnit_canonical
 #print axioms decoded_is_canonical
 #print axioms unit_canonical
